@@ -75,7 +75,8 @@ Proof.
   - now apply Permutation_flat_map.
 Qed.
 Print Assumptions C20_parse_tag_parts_order_irrelevant.
-(* filter() of a set: the order in which the members are chained (iteration order of the frozenset) does not matter *)
+(* filter() of a set: the iteration order of the frozenset of members does not matter (the code asks every member in one pass since fix
+   70278f0; the model's chain of per-member filters is extensionally the same function) *)
 Theorem C20_set_filter_order_independent S S' arg xs : Permutation (SetsModel.ms S) (SetsModel.ms S') -> SetsModel.ov S = SetsModel.ov S' ->
   SetsBridge.wf_set S -> SetsFilter.wf_items xs -> SetsModel.set_filter_v S arg xs = SetsModel.set_filter_v S' arg xs.
 Proof. exact (C06.C06_chain_order_irrelevant S S' arg xs). Qed.
@@ -111,9 +112,9 @@ Proof. exact (SetsSupply.supply_order_behaviour_perm l l' p). Qed.
 Print Assumptions C20_set_behaviour_supply_order.
 
 (* ---------------- caches: keyed platform probes, metadata attributes on the richer models ---------------- *)
-(* _get_musl_version is memoised PER EXECUTABLE PATH: every probe returns what the FIRST probe for the same path returned, probes of
-   different paths do not share an answer, a probe that raised is not cached - so a battery of probes is transparent exactly when each
-   path answers consistently *)
+(* _get_musl_version is memoised PER EXECUTABLE PATH (model: an unbounded association list; functools.lru_cache keeps 128 entries, so this
+   is about batteries of at most 128 distinct paths): every probe returns what the FIRST probe for the same path returned; hence a battery
+   of probes is transparent when each path answers consistently (one direction only) *)
 Theorem C20_keyed_probe_cache l :
   (forall i k now, nth_error l i = Some (k, now) ->
      exists v, nth_error (PlatLoader.run_keyed [] l) i = Some v /\ PlatLoaderProofs.first_for k (firstn (S i) l) = Some v) /\
@@ -133,3 +134,15 @@ Theorem C20_metadata_caller_dict_untouched O w dl d ks : MetaBase.lookup dl (Met
   MetaBase.lookup dl (MetaHeap.w_dicts w') = Some d /\ MetaHeap.w_vals w' = MetaHeap.w_vals w.
 Proof. exact (C17.C17_caller_dict_untouched O w dl d ks). Qed.
 Print Assumptions C20_metadata_caller_dict_untouched.
+
+(* parse_tag on TEXT: permuting the dotted parts of each of the three fields permutes the resulting tags (same set) *)
+Theorem C20_parse_tag_text_parts_order s s' i a p i' a' p' :
+  WheelModel.split_all 45 s = [i; a; p] -> WheelModel.split_all 45 s' = [i'; a'; p'] ->
+  Permutation (WheelModel.split_all 46 i) (WheelModel.split_all 46 i') -> Permutation (WheelModel.split_all 46 a) (WheelModel.split_all 46 a') ->
+  Permutation (WheelModel.split_all 46 p) (WheelModel.split_all 46 p') ->
+  exists l l', WheelModel.parse_tag s = WheelModel.FOk l /\ WheelModel.parse_tag s' = WheelModel.FOk l' /\ Permutation l l'.
+Proof.
+  intros E E' Hi Ha Hp. unfold WheelModel.parse_tag. rewrite E, E'. do 2 eexists. split; [reflexivity|]. split; [reflexivity|].
+  now apply C20_parse_tag_parts_order_irrelevant.
+Qed.
+Print Assumptions C20_parse_tag_text_parts_order.
